@@ -484,7 +484,7 @@ class TimeDeltaUnmarshaller(AbstractUnmarshaller[TimeDeltaT], tp.Generic[TimeDel
             val: The input value to unmarshal.
         """
         if isinstance(val, (int, float)):
-            return self.t(seconds=int(val))
+            return self.t(seconds=val)
 
         decoded = serdes.decode(val)
         td: datetime.timedelta = (
@@ -496,7 +496,7 @@ class TimeDeltaUnmarshaller(AbstractUnmarshaller[TimeDeltaT], tp.Generic[TimeDel
         if td.__class__ is self.t:
             return td  # type: ignore[return-value]
 
-        return self.t(seconds=td.total_seconds())
+        return self.t(days=td.days, seconds=td.seconds, microseconds=td.microseconds)
 
 
 UUIDT = tp.TypeVar("UUIDT", bound=uuid.UUID)
